@@ -392,6 +392,12 @@ func unkOne(c *Ctx, t *w2aTarget) {
 	c.Stat("value_" + fl.name)
 	eager := proto.UnmarshalOptions{NoLazyDecoding: true}
 
+	if msgLegacyReach(fl.md) && msgFB1Class(fl.md, bi) {
+		// finding FB1 (legacy generated message types, also reached from dynamicpb through their
+		// extension types): not the modelled decoder
+		c.Stat("skipped_FB1")
+		return
+	}
 	// --- P1 / P2 on the full schema
 	m1, err := w2aUnmarshal(fl, bi, eager)
 	c.Case("unk", "dec", []string{id, fl.mode(), HexB(bi)}, unkObs(m1, err))
@@ -475,6 +481,10 @@ func unkOne(c *Ctx, t *w2aTarget) {
 	br, err := w2aMarshal.Marshal(mr.Interface())
 	if err != nil {
 		c.PropFail("C09", "Marshal with the reduced schema fails: "+fl.what(), HexB(b1))
+		return
+	}
+	if msgLegacyReach(fl.md) && msgFB1Class(fl.md, br) {
+		c.Stat("skipped_FB1")
 		return
 	}
 	me, err := w2aUnmarshal(fl, br, eager)
